@@ -6,12 +6,15 @@ import json
 import os
 
 from vlib import core, cover_inst as ci, cover_coq as cq
+from vlib import bits_gen, listexpr_gen
 from vlib.core import Broken, Mismatch, Failing
 
 ID = 'C08'
 LEVEL = 'proof'
 THEORIES = ['theories/L5Cover/BoxesProofs.vo',
-            'theories/L5Cover/ListExprProofs.vo']
+            'theories/L5Cover/ListExprProofs.vo',
+            'theories/L5Cover/ListExprNorm.vo',
+            'theories/L0Bits/Bits.vo']
 
 HEADER = cq.HEADER + 'From Omega Require Import L5Cover.ListExpr.\n'
 OPTIONS = [dict(show_dom=a, show_limits=b, comment=c)
@@ -22,15 +25,48 @@ MARKER = 'care expression'
 
 def prove(ctx):
     with ctx.coq_lock():
-        ctx.prove('Properties/C08.v', timeout=900)
+        # tie T: regenerate gen/BitsGen.v (_bitfield_limits) and
+        # gen/ListExprGen.v (the printing functions) from the current
+        # sources, then re-prove GenProofs/ListExprBridge.v (generated code =
+        # model) and the statements built on it
+        bits_gen.ensure_bits(ctx)
+        notes, templates = listexpr_gen.ensure_listexpr(ctx)
+        ctx.prove_with_deps('Properties/C08.v', timeout=900)
+    ctx.extra['translation'] = dict(
+        sources=listexpr_gen.SOURCES, functions=listexpr_gen.FUNCTIONS,
+        generated='coq/' + listexpr_gen.GEN,
+        bridge='coq/GenProofs/ListExprBridge.v',
+        string_templates=[f'{t}   :   {tree}' for t, tree in templates],
+        notes=notes)
     ctx.trusted.append(
-        'tie H: orthotopes.list_expr, _type_hints._clip_subrange/_list_limits/'
-        '_list_type_hints and cover.dumps_cover are modelled by hand in '
-        'L5Cover/ListExpr.v at the level of the syntax tree returned by the '
-        'real parser (omega.logic.lexyacc.Parser) for the printed text; the '
-        'text layout (line breaks, triplets per line, comments) is not '
-        'modelled; the conversion of the parser\'s tree to a Gallina literal '
-        '(vlib/cover_coq.expr_lit) is trusted')
+        'translator tie T: tools/py2coq_listexpr.py (_type_hints.'
+        '_clip_subrange, _check_type_hint, _format_range, _list_type_hints, '
+        '_list_limits; syntax.vertical_op; orthotopes.list_expr; '
+        'cover.dumps_cover -> Gallina, proved equal to '
+        'theories/L5Cover/ListExpr.v on every run: Leibniz for '
+        '_clip_subrange, _list_limits, _list_type_hints, vertical_op; equal '
+        'trees up to the association of /\\ and \\/ (ListExprNorm.norm) for '
+        'list_expr and dumps_cover, for the boxes in the order natsort lists '
+        'the disjuncts). Trusted in it: the fixed template grammar (which '
+        'tree an f-string / str.format / join is read as; every template met '
+        'is printed in gen/ListExprGen.v), in particular that a junction '
+        'list is read as TLA+ reads it (by indentation) and that the marker '
+        'line `care expression` is TRUE; the erasure of white space, '
+        'comments and logging; latex=False only; None (exception or text '
+        'outside the fragment) for every raise / failed assert; the reading '
+        'of the BDD `cover` as (sorted variables, products of pick_iter) and '
+        'of prm.x_vars, _care_implies_type_hints(f, care, fol), care == '
+        'fol.true as extra arguments; natsort as an arbitrary permutation; '
+        'everything skipped (the BDD-level postcondition of dumps_cover, '
+        'the warnings of _check_type_hint) is listed as a note in the '
+        'generated file and in the evidence')
+    ctx.trusted.append(
+        'tie H remains for: what the real parser (omega.logic.lexyacc.Parser) '
+        'returns for the printed text (it ignores indentation; the check '
+        'compares denotations), the BDD-level parts (cover.minimize, '
+        'setup_aux_vars, fol.pick_iter on the cover, '
+        '_care_implies_type_hints, Context.to_expr) and the conversion of '
+        'the parser\'s tree to a Gallina literal (vlib/cover_coq.expr_lit)')
 
 
 # ------------------------------------------------------------------ real side
